@@ -97,6 +97,30 @@ def c_case(res):
     return ctuple(x, d, table)
 
 
+CV_TAGS = ['color', 'constant_attenuation', 'linear_attenuation', 'quadratic_attenuation', 'zfar', 'falloff_angle']
+
+
+def gen_cv(rng):
+    """a small element, a tag, a value or None, an `after` list or None"""
+    kids = []
+    for _ in range(rng.randint(0, 5)):
+        kids.append([rng.choice(CV_TAGS), rng.choice([None, '1.5', '0.25 2', '7'])])
+    after = None if rng.random() < 0.3 else rng.sample(CV_TAGS, rng.randint(0, 4))
+    return {'kids': kids, 'tag': rng.choice(CV_TAGS), 'value': rng.choice([None, None, '2.5', '3', '0.125']), 'after': after}
+
+
+def c_cv(case, res):
+    enc = Enc()
+    A = lambda s_: cN(enc.I.atom(s_))
+
+    def kid(u, tg, tx):
+        return '(El %s %s %s [] %s [])' % (cN(u), A(xml2coq.ET and 'http://www.collada.org/2005/11/COLLADASchema'), A(tg), enc.toks(tx))
+    before = clist([kid(i + 1, tg, tx) for i, (tg, tx) in enumerate(case['kids'])])
+    got = clist([kid(u, tg, tx) for u, tg, tx in res['kids']])
+    return ctuple(A(case['tag']), copt(None if case['value'] is None else toks(enc, case['value'])),
+                  copt(None if case['after'] is None else clist([A(a) for a in case['after']])), before, got)
+
+
 def gen_case(rng, quick):
     k = rng.random()
     if k < 0.35:
@@ -118,12 +142,26 @@ def run(ctx):
     terms = [c_case(r) for _, r in usable]
     ctx.log('reading the written bytes with minidom and comparing with emit of the model inside Coq (%d cases)' % len(terms))
     bad, errors = core.coq_eval_cases(ctx, HEADER, CASE_TYPE, terms, 'C06.mismatches', chunk=20)
+    # second correspondence: _correctValInNode on small elements
+    cvs = [gen_cv(ctx.rng) for _ in range(400 if quick else 4000)]
+    cvres = core.run_impl('c02', {'cv_cases': cvs, 'pid': PID}, timeout=120)
+    cvterms = [c_cv(c, r) for c, r in zip(cvs, cvres) if 'kids' in r]
+    cvbad, cverr = core.coq_eval_cases(ctx, HEADER, 'C06.cv_case', cvterms, 'C06.cv_mismatches', chunk=200, label='cv')
+    errors = errors + cverr
+    if len(cvterms) != len(cvs):
+        errors.append({'error': '_correctValInNode raised on %d small elements: %s' % (
+            len(cvs) - len(cvterms), [r.get('error') for r in cvres if 'error' in r][:2])})
     failures = H.failures_of(cases, results, pid=PID)
     known = {k['signature'] for k in core.load_known() if k.get('property') == PID}
     mismatches = []
     for i in bad[:20]:
         c, r = usable[i]
         mismatches.append({'case_index': i, 'input': c, 'explained_by_known': any(f['signature'] in known for f in r['fails'])})
+    usable_cv = [(c, r) for c, r in zip(cvs, cvres) if 'kids' in r]
+    for i in cvbad[:5]:
+        mismatches.append({'case_index': i, 'correct_val_case': usable_cv[i][0], 'implementation': usable_cv[i][1],
+                           'input': {'base': {'kind': 'gen', 'seed': 1, 'size': 2}, 'ops': [{'op': 'attr', 'what': 'light', 'pos': 0, 'r': 1}]},
+                           'explained_by_known': False})
     seen = set()
     for c, r in usable:
         libs = r['info'].get('libs', {})
@@ -132,6 +170,7 @@ def run(ctx):
     dist = H.distribution(cases, results)
     dist['pure_constructor_programs'] = sum(1 for c in cases if not c['ops'])
     dist['compared_in_coq'] = len(usable)
+    dist['correctValInNode_cases_compared_in_coq'] = len(cvterms)
     dist['oracle_only_loaded_documents'] = sum(1 for c, r in zip(cases, results) if 'content' not in r and 'skel_model' in r)
     corr = {
         'evaluations': len(usable),
